@@ -1,0 +1,6 @@
+//go:build !verif
+
+package engine
+
+// verifSchedulePoint is a no-op unless built with the `verif` tag.
+func verifSchedulePoint(int, int) {}
